@@ -233,6 +233,14 @@ def rule_split(ctx, F, rule="R1", ST=ST, SK=SK, KF="mina_core::timeline::Keyfram
                            "appended (the value is held); pushed %s" % [show(e["descs"][1]) for e in frame_pushes],
                            body["span"], trace_of(p), what="trailing-frame-wrong")
                 else:
+                    # every sub-timeline with data must end with a frame at 100 %: the row must have *decided* that the
+                    # last frame is not before 1.0 (fail closed when the test is missing altogether)
+                    last_none = bool(last) and any(t[0] == "discr" and t[1] == last[0]["result"] and v == 0
+                                                    for (t, v, s) in p.conds)
+                    ctx.ob(rule, lab + "/trailing-decided", bool(last) and (lt1 == [0] or last_none),
+                           "the epilogue must test whether the last frame lies before 100%% (and append a held frame at "
+                           "1.0 if so): this row ends without such a test (last() calls %d, decisions %s)"
+                           % (len(last), lt1), body["span"], trace_of(p), what="trailing-frame-not-decided")
                     ctx.ob(rule, lab + "/no-extra-frame", not frame_pushes,
                            "no frame is appended when the last frame is already at 100%", body["span"], trace_of(p),
                            what="extra-trailing-frame")
@@ -511,6 +519,10 @@ def check(ctx):
     rule_split(ctx, F, "R1")
     rule_lookup(ctx, F, "R2", "R3")
     rule_search(ctx, F, "R4")
+    # R3 also needs the interpolation applied to the eased fraction to be the plain affine lerp, for every fraction the
+    # easing may yield (Back curves and custom easings leave [0,1]): one return path, affine in x (C14/R2)
+    from rules import c14
+    c14.rule_affine(ctx, F, "R3")
     # R4 also needs the table that is searched to be parallel to the keyframes (and sorted): C11/R1
     from rules import c11
     for b in [b for b in c11.builders_of(F, c11.TBA) if F.body_unit[b["id"]][0] == "mina_core"]:
